@@ -136,7 +136,9 @@ def run(job, seed):
             # ... including an override that is, as text, exactly the old or
             # exactly the NEW default
             # ... and the alias in every spelling
-            for c in ovr + alias_spellings(new1) + [O, N]:
+            # ... and leaves of OTHER kinds whose text after the colon is the
+            # new policy's name (a role that happens to be called like it)
+            for c in ovr + alias_spellings(new1) + [O, N, 'role:%s' % new1]:
                 if c not in old_choices:
                     old_choices.append(c)
         for end, new_ovr, old_ovr, loc, noise in itertools.product(
